@@ -32,6 +32,9 @@ pub enum Case {
     SigShape { kind: u8, sigs: Vec<Bytes>, keys: Vec<Bytes>, m: Bytes, n: Bytes, value: Option<u64>, dummy: bool, #[serde(default)] filler: Vec<gs::Filler>, #[serde(default)] inside: bool },
     /// interpreter built from a transaction input
     FromTx { n_in: u8, idx: u8, lock: Option<Vec<El>>, value: Option<u64>, unlock: Vec<El> },
+    /// an interpreter given its element list directly (`from_transaction_and_script_bits`; empty `bits` = `from_transaction`),
+    /// independent of the input's locking script, and optionally an unlocking script that is one opaque Coinbase element
+    TxBits { bits: Vec<El>, lock: Vec<El>, coinbase_unlock: Option<Vec<El>>, sig: Bytes, key: Bytes, check: u8 },
     /// raw unlocking / locking script bytes on a one-input transaction (the libFuzzer `interptx` target)
     RawTx {
         #[serde(with = "crate::gen::hexser")]
@@ -211,7 +214,7 @@ impl Property for C16 {
     const ID: &'static str = "C16";
 
     fn rule() -> String {
-        "Opcode soup over every opcode value of the library's table (reserved, disabled, template pseudo-opcodes; via from_script_bits also bare structural and PUSHDATA opcodes) with adversarial operands (negative, 2^31 +/- 1, > 4 bytes, empty, negative zero), signature- and key-shaped pushes, initial stacks of depth 0..6, nested conditionals (random trees; straight nests to depth 150 / 300); random byte strings that parse; a Coinbase element; interpreters built from transaction inputs with/without locking script and value running CHECKSIG/CHECKMULTISIG on garbage signatures and off-curve keys, half of them behind or inside conditionals holding code separators. Oracle: no panic (catch_unwind) and no process death (supervised child + journal); steps <= elements of the flattened tree + 1; stepping to the end and run() give the same Ok/Err and the same final stacks; after an Err the stacks equal the last returned state. Non-trivial = >= 3 executed steps or an error path reached; distinct by hash of the serialised case.".into()
+        "Opcode soup over every opcode value of the library's table (reserved, disabled, template pseudo-opcodes; via from_script_bits also bare structural and PUSHDATA opcodes) with adversarial operands (negative, 2^31 +/- 1, > 4 bytes, empty, negative zero), signature- and key-shaped pushes, initial stacks of depth 0..6, nested conditionals (random trees; straight nests to depth 150 / 300); random byte strings that parse; a Coinbase element; interpreters built from transaction inputs with/without locking script and value running CHECKSIG/CHECKMULTISIG on garbage signatures and off-curve keys, half of them behind or inside conditionals holding code separators; interpreters handed their element list directly (from_transaction_and_script_bits) with more elements than the input's locking script, and inputs whose unlocking script is one opaque Coinbase element that re-reads as several. Oracle: no panic (catch_unwind) and no process death (supervised child + journal); steps <= elements of the flattened tree + 1; stepping to the end and run() give the same Ok/Err and the same final stacks; after an Err the stacks equal the last returned state. Non-trivial = >= 3 executed steps or an error path reached; distinct by hash of the serialised case.".into()
     }
 
     fn assumptions() -> Vec<String> {
@@ -283,6 +286,8 @@ impl Property for C16 {
                     Case::SigShape { kind, sigs, keys, m, n, value, dummy, filler, inside }
                 }),
             1 => (soup(false, 1), prop::collection::vec(any::<u8>(), 0..20)).prop_map(|(before, d)| Case::Coinbase { before, data: Bytes::Lit(d) }),
+            4 => (prop_oneof![1 => Just(vec![]), 3 => gs::filler(6).prop_map(|f| gs::filler_els(&f))], gs::filler(3).prop_map(|f| gs::filler_els(&f)), prop::option::weighted(0.4, gs::filler(5).prop_map(|f| gs::filler_els(&f))), sig_like().prop_map(Bytes::Lit), key_like().prop_map(Bytes::Lit), any::<u8>())
+                .prop_map(|(bits, lock, coinbase_unlock, sig, key, check)| Case::TxBits { bits, lock, coinbase_unlock, sig, key, check }),
             3 => (soup(false, 1), soup(false, 2), prop::collection::vec(crate::props::c02::mutation(), 0..2)).prop_map(|(u, l, muts)| { let mut lb = gs::to_bytes(&l); crate::props::c02::apply_mutations(&mut lb, &muts); Case::RawTx { unlock: gs::to_bytes(&u), lock: lb } }),
             12 => (1u8..3, any::<u8>(), prop::option::weighted(0.85, soup(false, 2)), prop::option::weighted(0.85, gen::u64_edge()), soup(false, 1)).prop_map(|(n_in, idx, lock, value, unlock)| Case::FromTx { n_in, idx, lock, value, unlock }),
         ]
@@ -394,6 +399,41 @@ impl Property for C16 {
                 tx.add_input(&txin);
                 tx.add_output(&TxOut::new(1, &Script::default()));
                 check_interpreter(&|| Interpreter::from_transaction(&tx, 0).map_err(|e| e.to_string()), &mut o)?;
+            }
+            Case::TxBits { bits, lock, coinbase_unlock, sig, key, check } => {
+                o.label("interpreter-from-script-bits");
+                let unlock_script = match coinbase_unlock {
+                    // an opaque element whose bytes, re-read as a script, are several elements
+                    Some(els) => {
+                        let mut e = els.clone();
+                        e.push(push_el(&sig.to_vec()));
+                        e.push(push_el(&key.to_vec()));
+                        o.label("opaque-unlocking-script");
+                        Script::from_coinbase_bytes(&gs::to_bytes(&e)).map_err(|e| failure("from_coinbase_bytes", e.to_string(), "Ok"))?
+                    }
+                    None => Script::default(),
+                };
+                let mut tx = Transaction::new(1, 0);
+                let mut txin = TxIn::new(&[5u8; 32], 2, &unlock_script, Some(0xffffffff));
+                let mut l = lock.clone();
+                if coinbase_unlock.is_some() {
+                    l.push(El::Op(172 + check % 4));
+                }
+                txin.set_locking_script(&script_from_els(&l));
+                txin.set_satoshis(7);
+                tx.add_input(&txin);
+                tx.add_output(&TxOut::new(1, &Script::default()));
+                if bits.is_empty() {
+                    check_interpreter(&|| Interpreter::from_transaction(&tx, 0).map_err(|e| e.to_string()), &mut o)?;
+                } else {
+                    let mut b = bits.clone();
+                    b.push(push_el(&sig.to_vec()));
+                    b.push(push_el(&key.to_vec()));
+                    b.push(El::Op(172 + check % 4));
+                    let lib_bits = els_to_bits(&b);
+                    o.label_if(gs::to_tokens(&b).len() > gs::to_tokens(&l).len(), "more-elements-than-the-locking-script");
+                    check_interpreter(&|| Ok(Interpreter::from_transaction_and_script_bits(tx.clone(), 0, lib_bits.clone())), &mut o)?;
+                }
             }
             Case::RawTx { unlock, lock } => {
                 o.label("raw-bytes-from-transaction");
